@@ -19,6 +19,8 @@ type Broadcast struct {
 // broadcast closes the wait channel, if any.
 // getWaitCh returns a channel that will be closed when broadcast is called.
 func (c *Broadcast) HoldLock(cb func(broadcast func(), getWaitCh func() <-chan struct{})) {
+	verifPoint(0, c)
+	defer verifPoint(1, c)
 	c.mtx.Lock()
 	defer c.mtx.Unlock()
 	cb(c.broadcastLocked, c.getWaitChLocked)
@@ -40,6 +42,8 @@ func (c *Broadcast) TryHoldLock(cb func(broadcast func(), getWaitCh func() <-cha
 func (c *Broadcast) HoldLockMaybeAsync(cb func(broadcast func(), getWaitCh func() <-chan struct{})) {
 	holdBroadcastLock := func(lock bool) {
 		if lock {
+			verifPoint(2, c)
+			defer verifPoint(3, c)
 			c.mtx.Lock()
 		}
 		// use defer to catch panic cases
